@@ -7,4 +7,10 @@ print("|---|---|---|---|---|")
 for mp in sorted(glob.glob(os.path.join(HERE, "seeded", "*", "meta.json"))):
     m = json.load(open(mp))
     need = m.get("summary") or m.get("needs_to_manifest", "").strip().splitlines()[0][:160]
-    print("| %s | %s | %s | %s | %s |" % (m["id"], m["breaks_property"], need.replace("|", "/"), ", ".join(m.get("caught_by", [])) or "-", ", ".join(m.get("missed_by", [])) or "-"))
+    caught = ", ".join(m.get("caught_by", [])) or "-"
+    if m.get("caught_by_thorough"):
+        caught += " (thorough: %s)" % ", ".join(m["caught_by_thorough"])
+    missed = ", ".join(m.get("missed_by", [])) or "-"
+    if m.get("verdict_note") and not m.get("caught_by"):
+        missed += " - " + m["verdict_note"].split(":")[0].split(".")[0][:90]
+    print("| %s | %s | %s | %s | %s |" % (m["id"], m["breaks_property"], need.replace("|", "/"), caught, missed))
